@@ -1767,14 +1767,17 @@ def _selection_run(f, version, ecl, forced, oracle):
     pe.summaries.update({"default::create_matrix": s_blank, "placement::place_on_matrix_data": s_place, "default::transpose": s_transpose,
                          "datamasking::mask": s_mask, "default::create_matrix_format_info": s_format, "score::score": s_score})
     mopt = _opt(None if forced is None else mk_enum(MASK, forced))
-    r = pe.run("placement::place_on_matrix", [("ref", ("const", cq)), mk_enum(ECL, ecl), mk_enum(VERSION, "V%02d" % version), ("cell", 0)],
-               cells=[mopt])
+    ins = (f.fn("placement::place_on_matrix").raw.get("inputs") or [])
+    by_value = len(ins) == 4 and not ins[3].startswith("&")
+    r = pe.run("placement::place_on_matrix", [("ref", ("const", cq)), mk_enum(ECL, ecl), mk_enum(VERSION, "V%02d" % version),
+                                              mopt if by_value else ("cell", 0)], cells=[mopt])
     if r.kind != "ret":
         return r.kind, r.why
     q = r.value
     if q == TOP or q[0] != "adt" or q[1] != QRC:
         return "top", "place_on_matrix does not return a QRCode"
-    return "ret", {"data": _qr_get(f, q, "data"), "mask": to_py(_qr_get(f, q, "mask")), "out": to_py(r.cells[0]), "scored": scored}
+    return "ret", {"data": _qr_get(f, q, "data"), "mask": to_py(_qr_get(f, q, "mask")), "out": None if by_value else to_py(r.cells[0]),
+                   "scored": scored}
 
 
 def c11_r8(ctx, f, rid="C11.R8", report_d1=False):
@@ -1828,7 +1831,7 @@ def c11_r8(ctx, f, rid="C11.R8", report_d1=False):
             bad.append(("final-symbol", "format information for (level, chosen mask) written on the placed matrix, then that mask applied once",
                         str(dat)[:160]))
         sm = {"variant": "Some", "fields": [chosen]}
-        if info["mask"] != sm or info["out"] != sm:
+        if info["mask"] != sm or (info["out"] is not None and info["out"] != sm):
             bad.append(("reported-mask", chosen, (info["mask"], info["out"])))
         if bad:
             for b in bad[:2]:
